@@ -4,7 +4,39 @@
 // it contributes nothing to any build; the //@ lines are read by /verif/bin/gzv.
 package collection
 
+// ---------------------------------------------------------------------------------------------
+// C12 timing wheel
+//
+// Abstract reading of the representation: an entry x held by slot list s = slotIdx[listOf[x]] fires
+//   rem(tw, x) = wait(s, tickedPos, numSlots) + x.circle*numSlots + x.diff
+// ticks from now (wait = ticks until slot s is scanned next, in [1, numSlots]).
+// The property "fires at the floor(d/interval)-th tick after the latest set/move" is then:
+//   set/move establish rem == floor(d/interval)   (setTask, moveTask, getPositionAndCircle)
+//   a tick decreases rem by exactly one for every entry and fires exactly the entries with rem == 1 (onTick, scanAndRunTasks)
+// ---------------------------------------------------------------------------------------------
+
+//@ ghost var slotIdx map[*list.List]int
+
 //@ spec wait(s int, p int, n int) int = (s - p - 1 + n) % n + 1
+
+// SafeMap seen by its clients: two model fields (ghost maps), smH[m] = key set, smV[m] = values.
+// The SafeMap methods are verified against these contracts under C16 (coupling invariant smRep).
+//@ ghost var smH map[*SafeMap]map[any]bool
+//@ ghost var smV map[*SafeMap]map[any]any
+//@ spec smHas(m *SafeMap, k any) bool = smH[m][k]
+//@ spec smGet(m *SafeMap, k any) any = smV[m][k]
+
+//@ spec wheelOK(tw *TimingWheel) bool = tw.numSlots >= 1 && 0 <= tw.tickedPos && tw.tickedPos < tw.numSlots && tw.interval > 0 &&
+//@      len(tw.slots) == tw.numSlots && tw.timers != nil &&
+//@      forall(i.(int), implies(0 <= i && i < tw.numSlots, tw.slots[i] != nil && slotIdx[tw.slots[i]] == i)) &&
+//@      forall(v.(any), implies(listOf[v] != nil, allocated(v)))
+//@ spec pe(tw *TimingWheel, k any) *positionEntry = smGet(tw.timers, k).(*positionEntry)
+//@ spec itemOK(tw *TimingWheel, x *timingEntry) bool = x.circle >= 0 && 0 <= x.diff && x.diff < tw.numSlots
+//@ spec inWheel(tw *TimingWheel, x *timingEntry) bool = listOf[x] != nil && 0 <= slotIdx[listOf[x]] && slotIdx[listOf[x]] < tw.numSlots && tw.slots[slotIdx[listOf[x]]] == listOf[x]
+//@ spec rem(tw *TimingWheel, x *timingEntry) int = wait(slotIdx[listOf[x]], tw.tickedPos, tw.numSlots) + x.circle*tw.numSlots + x.diff
+//@ spec timerOK(tw *TimingWheel, k any) bool = pe(tw, k) != nil && allocated(pe(tw, k)) && pe(tw, k).item != nil && allocated(pe(tw, k).item) && !pe(tw, k).item.removed && pe(tw, k).item.key == k &&
+//@      0 <= pe(tw, k).pos && pe(tw, k).pos < tw.numSlots && listOf[pe(tw, k).item] == tw.slots[pe(tw, k).pos]
+//@ spec timersOK(tw *TimingWheel) bool = forall(k.(any), implies(smHas(tw.timers, k), timerOK(tw, k)))
 
 //@ func (tw *TimingWheel) getPositionAndCircle
 //@   property C12
@@ -13,3 +45,82 @@ package collection
 //@   ensures  0 <= pos && pos < tw.numSlots && circle >= 0
 //@   ensures  wait(pos, tw.tickedPos, tw.numSlots) + circle*tw.numSlots == int(d / tw.interval)
 //@   modifies nothing
+
+//@ func (m *SafeMap) Get
+//@   property C16
+//@   trusted
+//@   results val, ok
+//@   requires m != nil
+//@   ensures  ok == smH[m][key] && implies(ok, val == smV[m][key])
+//@   modifies nothing
+
+//@ func (m *SafeMap) Set
+//@   property C16
+//@   trusted
+//@   requires m != nil
+//@   ensures  smH[m] == upd(old(smH[m]), key, true) && smV[m] == upd(old(smV[m]), key, value)
+//@   modifies smH[m], smV[m]
+
+//@ func (m *SafeMap) Del
+//@   property C16
+//@   trusted
+//@   requires m != nil
+//@   ensures  smH[m] == upd(old(smH[m]), key, false) && smV[m] == old(smV[m])
+//@   modifies smH[m], smV[m]
+
+//@ func (tw *TimingWheel) setTimerPosition
+//@   property C12
+//@   requires wheelOK(tw) && task != nil
+//@   requires implies(smHas(tw.timers, task.key), pe(tw, task.key) != nil && allocated(pe(tw, task.key)))
+//@   ensures  forall(k.(any), smHas(tw.timers, k) == (k == task.key || old(smHas(tw.timers, k))))
+//@   ensures  pe(tw, task.key) != nil && allocated(pe(tw, task.key)) && pe(tw, task.key).item == task && pe(tw, task.key).pos == pos
+//@   ensures  forall(k.(any), implies(k != task.key && smHas(tw.timers, k), pe(tw, k) == old(pe(tw, k))))
+//@   ensures  forall(q.(*positionEntry), implies(old(allocated(q)) && q != old(pe(tw, task.key)), q.item == old(q.item) && q.pos == old(q.pos)))
+//@   modifies smH[tw.timers], smV[tw.timers], positionEntry.item, positionEntry.pos
+//@   allocates
+
+//@ func (tw *TimingWheel) removeTask
+//@   property C12
+//@   requires wheelOK(tw) && timersOK(tw)
+//@   ensures  timersOK(tw)
+//@   ensures  !smHas(tw.timers, key)
+//@   ensures  implies(old(smHas(tw.timers, key)), old(pe(tw, key)).item.removed)
+//@   ensures  forall(k.(any), implies(k != key, smHas(tw.timers, k) == old(smHas(tw.timers, k)) && pe(tw, k) == old(pe(tw, k))))
+//@   ensures  forall(x.(*timingEntry), implies(old(allocated(x)) && !(old(smHas(tw.timers, key)) && x == old(pe(tw, key)).item), x.removed == old(x.removed)))
+//@   modifies smH[tw.timers], smV[tw.timers], timingEntry.removed
+//@   allocates
+
+//@ func (tw *TimingWheel) moveTask
+//@   property C12
+//@   requires wheelOK(tw) && timersOK(tw)
+//@   requires task.delay >= tw.interval
+//@   requires implies(smHas(tw.timers, task.key), itemOK(tw, pe(tw, task.key).item))
+//@   ensures  wheelOK(tw) && timersOK(tw)
+//@   ensures  forall(k.(any), smHas(tw.timers, k) == old(smHas(tw.timers, k)))
+//@   ensures  implies(smHas(tw.timers, task.key), rem(tw, pe(tw, task.key).item) == int(task.delay / tw.interval))
+//@   ensures  implies(smHas(tw.timers, task.key), itemOK(tw, pe(tw, task.key).item) && inWheel(tw, pe(tw, task.key).item))
+//@   ensures  implies(smHas(tw.timers, task.key), pe(tw, task.key).item.value == old(pe(tw, task.key).item.value) && pe(tw, task.key).item.key == task.key)
+//@   ensures  implies(smHas(tw.timers, task.key) && pe(tw, task.key).item != old(pe(tw, task.key).item), old(pe(tw, task.key).item).removed && fresh(pe(tw, task.key).item))
+//@   ensures  forall(x.(*timingEntry), implies(old(allocated(x)) && !(old(smHas(tw.timers, task.key)) && x == old(pe(tw, task.key).item)),
+//@              x.removed == old(x.removed) && x.circle == old(x.circle) && x.diff == old(x.diff) && listOf[x] == old(listOf[x]) && x.value == old(x.value)))
+//@   ensures  forall(k.(any), implies(k != task.key && smHas(tw.timers, k), pe(tw, k) == old(pe(tw, k)) && pe(tw, k).item == old(pe(tw, k).item) && pe(tw, k).pos == old(pe(tw, k).pos)))
+//@   modifies smH[tw.timers], smV[tw.timers], positionEntry.item, positionEntry.pos,
+//@            timingEntry.removed, timingEntry.circle, timingEntry.diff, timingEntry.value, timingEntry.delay, timingEntry.key, listOf
+//@   allocates
+
+//@ func (tw *TimingWheel) setTask
+//@   property C12
+//@   requires wheelOK(tw) && timersOK(tw) && task != nil && allocated(task) && listOf[task] == nil
+//@   requires task.circle == 0 && task.diff == 0 && !task.removed && task.delay > 0
+//@   requires implies(smHas(tw.timers, task.key), itemOK(tw, pe(tw, task.key).item))
+//@   ensures  wheelOK(tw) && timersOK(tw)
+//@   ensures  smHas(tw.timers, task.key) && forall(k.(any), implies(k != task.key, smHas(tw.timers, k) == old(smHas(tw.timers, k))))
+//@   ensures  rem(tw, pe(tw, task.key).item) == max(1, int(old(task.delay) / tw.interval))
+//@   ensures  itemOK(tw, pe(tw, task.key).item) && inWheel(tw, pe(tw, task.key).item)
+//@   ensures  pe(tw, task.key).item.value == task.value && pe(tw, task.key).item.key == task.key
+//@   ensures  implies(old(smHas(tw.timers, task.key)) && pe(tw, task.key).item != old(pe(tw, task.key).item), old(pe(tw, task.key).item).removed)
+//@   ensures  forall(x.(*timingEntry), implies(old(allocated(x)) && x != task && !(old(smHas(tw.timers, task.key)) && x == old(pe(tw, task.key).item)),
+//@              x.removed == old(x.removed) && x.circle == old(x.circle) && x.diff == old(x.diff) && listOf[x] == old(listOf[x]) && x.value == old(x.value)))
+//@   modifies smH[tw.timers], smV[tw.timers], positionEntry.item, positionEntry.pos,
+//@            timingEntry.removed, timingEntry.circle, timingEntry.diff, timingEntry.value, timingEntry.delay, timingEntry.key, listOf
+//@   allocates
